@@ -11,6 +11,15 @@ open DecM
 /-- the stream's header is readable and announces a sequential method (encoder_method byte 0) -/
 def IsSeqStream (s : DSt) : Prop := ∃ h s1, decodeHeader s = (some h, s1) ∧ h.encoderMethod = 0
 
+/-- a sequential stream of bitstream version ≥ 2.0 (the attribute controller of the current format:
+    `decodeSequentialAttributesV` runs `decodeSequentialAttributes`, not the legacy controller) -/
+def IsSeqStream20 (s : DSt) : Prop :=
+  ∃ h s1, decodeHeader s = (some h, s1) ∧ h.encoderMethod = 0 ∧ bsVersion 2 0 ≤ bsVersion h.major h.minor
+
+theorem IsSeqStream20.isSeq {s : DSt} (h : IsSeqStream20 s) : IsSeqStream s := by
+  obtain ⟨hd, s1, e, m, _⟩ := h
+  exact ⟨hd, s1, e, m⟩
+
 /-- `Decoder::DecodeBufferToGeometry` restricted to the sequential decoders: Edgebreaker and kd-tree bodies
     are rejected as unsupported -/
 def decodeGeometrySeq (opts : DecOpts) : DecM DecodeResult :=
